@@ -167,7 +167,7 @@ def run_check(pid, tier, seed, args):
     # ---- 1+2. symbolic execution of the real sources and discharge, one worker process per function variant -----------
     global _W
     jobs_fv = [(con, vn) for con in sorted(targets, key=lambda c: c.target) for vn in con.variant_names()]
-    _W = dict(world=world, reg=reg, jobs=jobs_fv, tier=tier, inner=max(2, 16 // max(1, len(jobs_fv))))
+    _W = dict(world=world, reg=reg, jobs=jobs_fv, tier=tier, inner=8)
     funcs = []
     all_obs = []
     results = {}
